@@ -73,6 +73,13 @@ func (r *PlainRanger) Range() (reflect.Value, reflect.Value, bool) {
 }
 func (r *PlainRanger) ProvidesIndex() bool { return false }
 
+// Emb has a field promoted through an embedded pointer, which may be nil.
+type PEmb struct{ PName string }
+type Emb struct {
+	*PEmb
+	Name string
+}
+
 // Level is a numeric kind with a String method: rendered through String(), so it must be escaped.
 type Level int
 
@@ -240,6 +247,11 @@ func Build(r Recipe) interface{} {
 		return &Strg{S: r.S}
 	case "error":
 		return errors.New(r.S)
+	case "emb": // S == "" : the embedded pointer is nil
+		if r.S == "" {
+			return &Emb{Name: "emb-nil"}
+		}
+		return &Emb{PEmb: &PEmb{PName: r.S}, Name: "emb"}
 	case "level":
 		return Level(r.I)
 	case "code":
